@@ -25,8 +25,8 @@ Proof.
   - rewrite (opt_eqb_spec N.eqb N.eqb_eq). split; [intros ->; reflexivity | intros E; inversion E; auto].
   - rewrite N.eqb_eq. split; [intros ->; reflexivity | intros E; inversion E; auto].
   - rewrite (opt_eqb_spec Nat.eqb Nat.eqb_eq). split; [intros ->; reflexivity | intros E; inversion E; auto].
-  - rewrite Bool.andb_true_iff, N.eqb_eq, (opt_eqb_spec N.eqb N.eqb_eq).
-    split; [intros [-> ->]; reflexivity | intros E; inversion E; auto].
+  - rewrite !Bool.andb_true_iff, !N.eqb_eq, (opt_eqb_spec N.eqb N.eqb_eq), Nat.eqb_eq.
+    split; [intros [[[-> ->] ->] ->]; reflexivity | intros E; inversion E; auto].
   - rewrite Nat.eqb_eq. split; [intros ->; reflexivity | intros E; inversion E; auto].
   - rewrite Nat.eqb_eq. split; [intros ->; reflexivity | intros E; inversion E; auto].
 Qed.
